@@ -270,7 +270,7 @@ func genList(t *rapid.T, n *schemaNode, elems int) Val {
 	for i := 0; i < elems; i++ {
 		es := newWset(n.Elem)
 		if len(n.Elem.Nodes) > 0 {
-			genNode(t, es, n.Elem.Nodes[0], rapid.SampledFrom([]int{4, 10, 25}).Draw(t, "elem-density"))
+			genElemNode(t, es, n.Elem.Nodes[0], rapid.SampledFrom([]int{15, 35, 60}).Draw(t, "elem-density"), 0)
 		}
 		ws := es.writes()
 		if ws == nil {
@@ -279,6 +279,27 @@ func genList(t *rapid.T, n *schemaNode, elems int) Val {
 		v.E = append(v.E, ws)
 	}
 	return v
+}
+
+// genElemNode draws the written keys of one list element: a few keys, most left unwritten.
+// (rapid's integer draws favour small values: a nominal 85 is an empirical ~50 %.)
+func genElemNode(t *rapid.T, s *wset, n *schemaNode, density, depth int) {
+	for _, c := range n.Children {
+		switch c.Kind {
+		case kLeaf:
+			if chance(t, "ew:"+c.key(), density) {
+				s.set(c.key(), c.gen(t), "")
+			}
+		case kStruct:
+			enter := 85
+			if depth > 0 {
+				enter = 65
+			}
+			if chance(t, "es:"+c.key(), enter) {
+				genElemNode(t, s, c, density, depth+1)
+			}
+		}
+	}
 }
 
 // genFocusedList writes exactly one list setting with the given number of elements.
